@@ -48,6 +48,20 @@ fn tan(z: Complex<f64>) -> Complex<f64> {
     Complex::new(w.im, -w.re)
 }
 
+/// a / b by Smith's method: num_complex divides by |b|^2, which overflows for |b| > 1e154 (2 / 1e155 = 0)
+/// and underflows for |b| < 1e-162
+fn div(a: Complex<f64>, b: Complex<f64>) -> Complex<f64> {
+    if b.re.abs() >= b.im.abs() {
+        let r = b.im / b.re;
+        let d = b.re + b.im * r;
+        Complex::new((a.re + a.im * r) / d, (a.im - a.re * r) / d)
+    } else {
+        let r = b.re / b.im;
+        let d = b.re * r + b.im;
+        Complex::new((a.re * r + a.im) / d, (a.im * r - a.re) / d)
+    }
+}
+
 pub fn eval(expr: Node) -> Result<Complex<f64>, Box<dyn error::Error>> {
     #[cfg(feature = "verif_hooks")]
     crate::verif_hooks::tick(crate::verif_hooks::Point::EvalEntry);
@@ -57,10 +71,13 @@ pub fn eval(expr: Node) -> Result<Complex<f64>, Box<dyn error::Error>> {
         Add(expr1, expr2) => Ok(eval(*expr1)? + eval(*expr2)?),
         Subtract(expr1, expr2) => Ok(eval(*expr1)? - eval(*expr2)?),
         Multiply(expr1, expr2) => Ok(eval(*expr1)? * eval(*expr2)?),
-        Divide(expr1, expr2) => Ok(eval(*expr1)? / eval(*expr2)?),
+        Divide(expr1, expr2) => Ok(div(eval(*expr1)?, eval(*expr2)?)),
         Negative(expr1) => Ok(-(eval(*expr1)?)),
         Pow(expr1, expr2) => Ok(eval(*expr1)?.powc(eval(*expr2)?)),
-        Root(n_th_expr, x_expr) => Ok(eval(*x_expr)?.powc(1.0 / eval(*n_th_expr)?)),
+        Root(n_th_expr, x_expr) => {
+            let x = eval(*x_expr)?;
+            Ok(x.powc(div(Complex::new(1.0, 0.0), eval(*n_th_expr)?)))
+        }
         Abs(sub_expr) => Ok(Complex::new(eval(*sub_expr)?.norm(), 0.0)),
         Sin(sub_expr) => Ok(eval(*sub_expr)?.sin()),
         Cos(sub_expr) => Ok(eval(*sub_expr)?.cos()),
